@@ -41,13 +41,14 @@ Proof. vm_compute. reflexivity. Qed.
 Print Assumptions C11_every_statement_position_visited.
 
 (* hence, for statement trees of ANY depth: if the front end accepts a module
-   body, no statement anywhere below it is of a refused kind, and the only
-   function definition is the first top-level node *)
+   body, no live statement anywhere below it (live = not after a return, break
+   or continue in its own suite, i.e. not dead code) is of a refused kind, and
+   the only function definition is the first top-level node *)
 Theorem C11_refused_at_any_depth :
   forall fuel t0 rest,
-    front_status dispatch dispatch_default visits stmt_kinds fuel (t0 :: rest) = SOk ->
+    front_status dispatch dispatch_default visits stmt_kinds jump_kinds fuel (t0 :: rest) = SOk ->
     act (kind_of t0) = AFun ->
-    forall c n, In c (t0 :: rest) -> Desc stmt_kinds c n ->
+    forall c n, In c (live stmt_kinds jump_kinds (t0 :: rest)) -> Desc stmt_kinds jump_kinds c n ->
       act (kind_of n) <> ARefuse /\ (act (kind_of n) = AFun -> n = t0).
 Proof.
   intros fuel t0 rest. apply front_accepts_nothing_unsupported. exact C11_every_statement_position_visited.
@@ -57,7 +58,7 @@ Print Assumptions C11_refused_at_any_depth.
 (* input that is not a function definition is refused (by the assertion) *)
 Theorem C11_non_function_refused :
   forall fuel k slots rest, act k <> AFun -> smem "FunctionDef" (ancestors stmt_kinds k) = false ->
-    front_status dispatch dispatch_default visits stmt_kinds fuel (Node k slots :: rest) <> SOk.
+    front_status dispatch dispatch_default visits stmt_kinds jump_kinds fuel (Node k slots :: rest) <> SOk.
 Proof.
   intros fuel k slots rest _ H. unfold front_status. rewrite H. discriminate.
 Qed.
@@ -75,10 +76,10 @@ Definition ex_good :=
                                                                    ("orelse", [leaf "Break"])]]);
                                                ("orelse", [])]; leaf "Return"])]].
 Example C11_example :
-  front_status dispatch dispatch_default visits stmt_kinds 10 ex_bad = SNotImplemented /\
-  front_status dispatch dispatch_default visits stmt_kinds 10 ex_good = SOk /\
-  front_status dispatch dispatch_default visits stmt_kinds 10
+  front_status dispatch dispatch_default visits stmt_kinds jump_kinds 10 ex_bad = SNotImplemented /\
+  front_status dispatch dispatch_default visits stmt_kinds jump_kinds 10 ex_good = SOk /\
+  front_status dispatch dispatch_default visits stmt_kinds jump_kinds 10
     [Node "FunctionDef" [("body", [Node "FunctionDef" [("body", [leaf "Return"])]; leaf "Return"])]]
     = SNotImplemented /\
-  front_status dispatch dispatch_default visits stmt_kinds 10 [leaf "Assign"] = SAssertion.
+  front_status dispatch dispatch_default visits stmt_kinds jump_kinds 10 [leaf "Assign"] = SAssertion.
 Proof. vm_compute. repeat split; reflexivity. Qed.
